@@ -66,11 +66,16 @@ ImplAcceptLbtc(outs) == /\ ImplPickLbtc(outs) # 0
                            IN o.blind # "wrongkey" /\ o.asset = "policy" /\ o.amt = "exact"
 ImplAccept(ch, outs) == IF ch = "btc" THEN ImplAcceptBtc(outs) ELSE ImplAcceptLbtc(outs)
 ImplPick(ch, outs)   == IF ch = "btc" THEN ImplPickBtc(outs) ELSE ImplPickLbtc(outs)
-\* The output index (1-based) the spend/announce paths use: the Bitcoin adapters
-\* call GetVoutAndVerify and ignore its boolean (a failed verification yields
-\* index 0 of the Go code = 1 here); Liquid looks the script up.
+\* The output index (1-based) the spend / announce paths use (0: none, the path
+\* fails with an error).  Bitcoin: GetVoutAndVerify scans for the first output
+\* that carries the swap script AND the swap amount (repaired code: it used to
+\* take the first amount match and its callers ignored the verdict).  Liquid:
+\* the first output with the swap script (FindVout / VoutFromTxHex; the opening
+\* path used to report 0 whatever the wallet did).
 ImplUseIdx(ch, outs) ==
-    IF ch = "btc" THEN (IF ImplAcceptBtc(outs) THEN ImplPickBtc(outs) ELSE 1)
+    IF ch = "btc"
+    THEN (LET M == {i \in Idx(outs) : outs[i].amt = "exact" /\ outs[i].script = "good"}
+          IN IF M = {} THEN 0 ELSE MinS(M))
     ELSE ImplPickLbtc(outs)
 
 (* ------------------------------------------------------------- shape space *)
@@ -116,9 +121,10 @@ RECURSIVE ShapeStr(_)
 ShapeStr(outs) == IF outs = <<>> THEN ""
                   ELSE IF Len(outs) = 1 THEN OutStr(outs[1])
                   ELSE OutStr(outs[1]) \o "," \o ShapeStr(Tail(outs))
-\* class used in finding signatures: the selection rule of the implementation
-\* (first amount match on Bitcoin, first script match on Liquid) lands on an
-\* output that is not the good one although a good one exists.
+\* class used in signatures: the selection rule of the VALIDATOR (first amount
+\* match on Bitcoin, first script match on Liquid) lands on an output that is
+\* not the good one although a good one exists (conservatively rejected by the
+\* taker; the maker's spend / announce paths must handle these shapes).
 ShapeClass(ch, outs) ==
     IF SpecValid(outs) /\ ImplPick(ch, outs) \notin GoodIdx(outs)
     THEN (IF ch = "btc" THEN "dupamt-before" ELSE "dupscript-before")
